@@ -25,7 +25,7 @@ without=$(cargo test --offline $FLAGS --test demo 2>&1 | grep -E "^test result|^
 rm -f tests/demo.rs
 echo "$P/$M: suite passed=$passed; demo WITH change: $with; demo WITHOUT: $without"
 if echo "$with" | grep -qE "FAILED|^error" && echo "$without" | grep -q "test result: ok"; then
-    id="$P-$M"
+    id="$P-${ID_TAG:-}$M"
     mkdir -p "/verif/seeded/$id"
     cp "$D/patch.diff" "$D/demo.rs" "/verif/seeded/$id/"
     [ -f "$D/NOTES.md" ] && cp "$D/NOTES.md" "/verif/seeded/$id/"
